@@ -389,10 +389,8 @@ func NewRateLimiter(config RateLimiterConfig) *RateLimiter {
 
 // AllowRequest checks if a request should be allowed
 func (rl *RateLimiter) AllowRequest(ip string, connID string) bool {
-	// Check global limit first
-	if !rl.globalLimiter.Allow() {
-		return false
-	}
+	// Check the client's own limits first: a request refused by its per-IP or
+	// per-connection limit must not consume capacity shared with other clients.
 
 	// Check per-IP limit
 	if !rl.perIPLimiter.Allow(ip) {
@@ -416,7 +414,9 @@ func (rl *RateLimiter) AllowRequest(ip string, connID string) bool {
 		}
 	}
 
-	return true
+	// Check the global limit last, so that only requests that are otherwise
+	// admitted draw from the shared budget
+	return rl.globalLimiter.Allow()
 }
 
 // AllowOperation checks if a specific operation type should be allowed
